@@ -195,7 +195,8 @@ func init() {
 	properties["C16"] = propSpec{
 		Level: "exploration",
 		Plan: []planEntry{
-			{Engine: "A", Scenario: "transfer", Quick: 36, Thorough: 450},
+			{Engine: "A", Scenario: "transfer", Quick: 30, Thorough: 400},
+			{Engine: "A", Scenario: "transfer-faults", Quick: 12, Thorough: 150},
 		},
 		Rule:       "seeded live-cluster runs issuing leadership transfers (target given / any / invalid / non-voter / lagging) with stalls, one-way cuts, connection breaks and concurrent client and membership tasks; non-trivial if at least 3 transfers chose a target; distinct = distinct abstract trace",
 		Nontrivial: all(ge("transfer-targets-chosen", 3)),
@@ -212,9 +213,10 @@ func init() {
 			{Engine: "A", Scenario: "election", Quick: 10, Thorough: 120},
 			{Engine: "A", Scenario: "member", Quick: 8, Thorough: 100},
 			{Engine: "A", Scenario: "transfer", Quick: 10, Thorough: 120},
+			{Engine: "A", Scenario: "wiped-follower", Quick: 3, Thorough: 30},
 		},
-		Rule:       "restated as bounded progress: seeded fault histories (partitions, crashes, restarts, membership churn, removed nodes that keep campaigning) followed by heal; within 400 ticks (tick = heartbeat timeout / 4) one leader that every live member follows, a fresh update committed, every live member's state machine caught up, membership stable; a miss is extended 4x: still stuck = violation, late = inconclusive; plus leader stickiness on every vote request handled while a leader is known; non-trivial if the run had at least 8 faults and reached the convergence phase; distinct = distinct abstract trace",
-		Nontrivial: all(ge("faults", 8)),
+		Rule:       "restated as bounded progress: seeded fault histories (partitions, crashes, restarts, membership churn, removed nodes that keep campaigning) followed by heal; within 400 ticks (tick = heartbeat timeout / 4) one leader that every live member follows, a fresh update committed, every live member's state machine caught up, membership stable; a miss is extended 4x: still stuck = violation, late = inconclusive; plus leader stickiness on every vote request handled while a leader is known; directed: a follower whose storage was wiped comes back under the same leader (known finding, see known_findings.json); non-trivial if the run had at least one fault and reached the convergence phase; distinct = distinct abstract trace",
+		Nontrivial: all(ge("faults", 1)),
 		MinQuick:   20, MinThorough: 200,
 		Counters:    []string{"converged", "convergence-ticks", "faults", "vote-requests-while-leader-known", "elections", "leaders-elected", "crashes"},
 		Prefixes:    []string{"fault:"},
